@@ -387,6 +387,12 @@ class DiagLayer:
                 # negative response for the service. If it cannot,
                 # the service simply does not apply to the message
                 for gnr in self.global_negative_responses:
+                    # the constants and the matching request parameters
+                    # of the response must fit the request of the service
+                    request_prefix = b'' if service.request is None else \
+                        service.request.coded_const_prefix()
+                    if not message.startswith(gnr.coded_const_prefix(request_prefix=request_prefix)):
+                        continue
                     try:
                         decoded_gnr = gnr.decode(message)
                         if not isinstance(decoded_gnr, dict):
